@@ -1,2 +1,3 @@
 //! Tape decoders (generators).
 pub mod prog;
+pub mod link;
